@@ -103,7 +103,8 @@ type Net struct {
 	ReusePorts bool
 	freePorts  map[netip.Addr][]uint16
 
-	Sent, Delivered, Dropped int64
+	Sent, DeliveredN, Dropped int64
+	deliveredByID             map[uint64]*Datagram
 
 	// Simulated TCP (stream.go)
 	streamListeners map[netip.AddrPort]*StreamListener
@@ -572,7 +573,11 @@ func (n *Net) deliver(d *Datagram) {
 	d.RxStamp = c.host.Clock.At(now)
 	d.DstConn = c
 	c.rxq = append(c.rxq, d)
-	n.Delivered++
+	n.DeliveredN++
+	if n.deliveredByID == nil {
+		n.deliveredByID = map[uint64]*Datagram{}
+	}
+	n.deliveredByID[d.ID] = d
 	n.mu.Unlock()
 	n.R.Log("deliver id=%d -> %s", d.ID, c.name)
 	if n.OnDeliver != nil {
@@ -834,4 +839,11 @@ func Recvmsg(fd int, p, oob []byte, flags int) (n, oobn int, recvflags int, from
 	binary.LittleEndian.PutUint32(b[28:], e.id)
 	c.net.R.Log("errq %s id=%d", c.name, e.id)
 	return 0, total, unix.MSG_ERRQUEUE, nil, nil
+}
+
+// Delivered returns the datagram with the given id once it has reached a socket queue.
+func (n *Net) Delivered(id uint64) *Datagram {
+	n.mu.Lock()
+	defer n.mu.Unlock()
+	return n.deliveredByID[id]
 }
